@@ -243,8 +243,9 @@ def shards(tier, seed, nworkers):
         specs.append({"kind": "sweep", "part": [i, nsw], "nrandom": 1 if q else 24, "sweepfull": 0 if q else 64})
     nsh = 4 if q else nworkers * 2
     for i in range(nsh):
-        specs.append({"kind": "random", "shard": i, "nsmall": (240 if q else 40000) // nsh, "full": 200 if q else 3000,
-                      "nbig": (160 if q else 20000) // nsh, "nrandom": 6 if q else 48, "bigfull": 0 if q else 200})
+        # (thorough sized to about a quarter of an hour on 16 cores: 8 000 small trees x up to 1 000 enumerated encodings each)
+        specs.append({"kind": "random", "shard": i, "nsmall": (240 if q else 8000) // nsh, "full": 200 if q else 1000,
+                      "nbig": (160 if q else 4000) // nsh, "nrandom": 6 if q else 24, "bigfull": 0 if q else 60})
     return specs
 
 
